@@ -441,10 +441,21 @@ package mqtt
 //@ ensures cl.nsent >= old(cl.nsent) && cl.nsent <= old(cl.nsent) + 1
 //@ ensures forall k int :: k < old(cl.nsent) ==> cl.sentpk[k] == old(cl.sentpk[k])
 
-// verif:func mqtt.Server.retainMessage trusted
-//@ modifies nretain, retainpk
-//@ ensures (s.Options.Capabilities.RetainAvailable == 0 || pk.Ignore) ==> nretain == old(nretain)
-//@ ensures !(s.Options.Capabilities.RetainAvailable == 0 || pk.Ignore) ==> nretain == old(nretain) + 1 && retainpk[old(nretain)] == pk
+// the retained store and the index it hangs off are in place (NewTopicsIndex), and the index is well-formed
+// verif:def retainOK(s *Server) bool = s.Topics != nil && s.Topics.Retained != nil && s.Topics.Retained.internal != nil && s.Topics.root != nil && wfTrie() && nodesValid()
+// verif:func mqtt.Hooks.OnRetainMessage trusted pure
+// ghost trace of the messages handed to the retained store (axiom clauses), and what the store holds afterwards (C05)
+// verif:func mqtt.Server.retainMessage
+//@ requires s.Options != nil && s.Options.Capabilities != nil && s.hooks != nil && s.Info != nil && retainOK(s)
+//@ modifies nretain, retainpk, entries(s.Topics.Retained.internal), allentries("string", "*particle"), all(particle.retainPath), s.Topics.Retained.ggot, s.Info.Retained
+//@ axiom (s.Options.Capabilities.RetainAvailable == 0 || pk.Ignore) ==> nretain == old(nretain)
+//@ axiom !(s.Options.Capabilities.RetainAvailable == 0 || pk.Ignore) ==> nretain == old(nretain) + 1 && retainpk[old(nretain)] == pk
+//@ ensures C05-nothing-is-retained-while-retain-is-unavailable: s.Options.Capabilities.RetainAvailable == 0 || pk.Ignore ==> (forall t string :: (has(rmap(s.Topics), t) <==> old(has(rmap(s.Topics), t))) && rmap(s.Topics)[t] == old(rmap(s.Topics)[t]))
+//@ ensures C05-a-retained-publish-with-payload-becomes-the-retained-message-of-its-topic: !(s.Options.Capabilities.RetainAvailable == 0 || pk.Ignore) && len(pk.Payload) > 0 ==> has(rmap(s.Topics), pk.TopicName) && rmap(s.Topics)[pk.TopicName].TopicName == pk.TopicName && sameBytes(rmap(s.Topics)[pk.TopicName].Payload, pk.Payload) && rmap(s.Topics)[pk.TopicName].FixedHeader.Qos == pk.FixedHeader.Qos
+//@ ensures C05-a-retained-publish-with-empty-payload-clears-its-topic: !(s.Options.Capabilities.RetainAvailable == 0 || pk.Ignore) && len(pk.Payload) == 0 ==> !has(rmap(s.Topics), pk.TopicName)
+//@ ensures C05-other-topics-untouched: forall t string :: t != pk.TopicName ==> (has(rmap(s.Topics), t) <==> old(has(rmap(s.Topics), t))) && rmap(s.Topics)[t] == old(rmap(s.Topics)[t])
+//@ ensures C38-retained-counter-follows-the-store: !(s.Options.Capabilities.RetainAvailable == 0 || pk.Ignore) ==> s.Info.Retained == int64(len(rmap(s.Topics)))
+//@ ensures index-kept: retainOK(s)
 
 // verif:func mqtt.Server.publishToSubscribers trusted
 //@ modifies nrouted, routedpk
@@ -456,7 +467,7 @@ package mqtt
 
 // verif:func mqtt.Server.processPublish modifies=all
 //@ ensures table-object-kept: cl.State.Inflight == old(cl.State.Inflight)
-//@ requires validClPub(cl) && validSrv(s) && publishErr == nil && s.Options.Capabilities.MaximumQos <= 2
+//@ requires validClPub(cl) && validSrv(s) && publishErr == nil && s.Options.Capabilities.MaximumQos <= 2 && retainOK(s)
 //@ requires !cl.stopped && !s.Options.Capabilities.Compatibilities.PassiveClientDisconnect
 // what PublishValidate and the decoder guarantee for a PUBLISH that reaches the handler; clients respect the advertised maximum QoS
 //@ requires pk.FixedHeader.Qos <= s.Options.Capabilities.MaximumQos && (pk.FixedHeader.Qos == 0 <==> pk.PacketID == 0) && !has(ifl(cl), 0) && !pk.Ignore
@@ -476,6 +487,8 @@ package mqtt
 //@ ensures C19-hook-error-not-forwarded: publishErr != nil ==> nrouted == old(nrouted) && nretain == old(nretain)
 //@ ensures C24-unbound-alias-rejected: !cl.Net.Inline && pk.TopicName == "" && pk.Properties.TopicAliasFlag && pk.Properties.TopicAlias > 0 && !old(has(cl.State.TopicAliases.Inbound.internal, pk.Properties.TopicAlias)) ==> nrouted == old(nrouted) && nretain == old(nretain)
 //@ ensures C03-routed-at-most-once: nrouted <= old(nrouted) + 1 && nretain <= old(nretain) + 1
+//@ ensures C05-only-a-publish-with-the-retain-flag-is-retained: nretain > old(nretain) ==> pk.FixedHeader.Retain
+//@ ensures C05-an-accepted-publish-with-the-retain-flag-reaches-the-retained-store: accepted(cl, pk) && pk.FixedHeader.Retain && nrouted == old(nrouted) + 1 && s.Options.Capabilities.RetainAvailable != 0 ==> nretain == old(nretain) + 1 && retainpk[old(nretain)].TopicName == routedpk[old(nrouted)].TopicName && retainpk[old(nretain)].Payload == routedpk[old(nrouted)].Payload
 //@ ensures C25-routed-expiry-is-smaller-nonzero-interval: nrouted == old(nrouted) + 1 && min0(s.Options.Capabilities.MaximumMessageExpiryInterval, int64(pk.Properties.MessageExpiryInterval)) > 0 && publishErr == nil ==> routedpk[old(nrouted)].Expiry == routedpk[old(nrouted)].Created + min0(s.Options.Capabilities.MaximumMessageExpiryInterval, int64(pk.Properties.MessageExpiryInterval))
 //@ ensures C38-counter-follows-table: r0 == nil ==> s.Info.Inflight - old(s.Info.Inflight) == len(ifl(cl)) - old(len(ifl(cl)))
 
@@ -625,7 +638,7 @@ package mqtt
 // verif:func mqtt.Hooks.OnUnsubscribed trusted
 //@ modifies nev, evkind, evcl, evid
 //@ ensures ev1(EV_UNSUBSCRIBED(), cl, pk.PacketID)
-// verif:func mqtt.Server.publishRetainedToClient trusted
+// (mqtt.Server.publishRetainedToClient: see the section "Retained store (C05)")
 // verif:func mqtt.Subscriptions.Delete trusted
 //@ modifies entries(s.internal)
 // verif:func mqtt.TopicsIndex.Unsubscribe trusted
@@ -705,7 +718,7 @@ package mqtt
 // verif:func mqtt.Server.processAuth trusted modifies=all
 //@ ensures cl.State.Inflight == old(cl.State.Inflight)
 // verif:func mqtt.Inflight.NextImmediate trusted
-// verif:def validDispatch(s *Server, cl *Client) bool = validClPub(cl) && validSrv(s) && s.loop != nil && s.loop.willDelayed != nil && s.Topics != nil && cl.State.Subscriptions != nil && cl.State.Subscriptions.internal != nil && s.Options.Capabilities.MaximumQos <= 2 && !has(ifl(cl), 0)
+// verif:def validDispatch(s *Server, cl *Client) bool = validClPub(cl) && validSrv(s) && s.loop != nil && s.loop.willDelayed != nil && retainOK(s) && cl.State.Subscriptions != nil && cl.State.Subscriptions.internal != nil && s.Options.Capabilities.MaximumQos <= 2 && !has(ifl(cl), 0)
 
 // verif:func mqtt.Server.processPacket modifies=all
 //@ requires validDispatch(s, cl) && publishErr == nil && !cl.stopped && !s.Options.Capabilities.Compatibilities.PassiveClientDisconnect
@@ -728,8 +741,6 @@ package mqtt
 //@ ensures val.registered
 // verif:func mqtt.Clients.Delete trusted
 //@ modifies entries(cl.internal)
-// verif:func packets.Packets.Delete trusted
-// verif:func packets.Packets.Add trusted
 
 // verif:func mqtt.Server.SendConnack modifies=all
 //@ requires validCl(cl) && validSrv(s) && (reason.Code < 128 ==> reason.Code == 0)
@@ -756,13 +767,13 @@ package mqtt
 // total number of subscriptions in a SharedSubscriptions table (what its Len() counts)
 // verif:ghost field nshared ref int
 // verif:func mqtt.SharedSubscriptions.Len trusted pure
-//@ ensures r0 == s.nshared && r0 >= 0
+//@ ensures r0 == s.nshared && r0 >= 0 && r0 <= 1099511627776
 // verif:func mqtt.Subscriptions.Len
-//@ ensures r0 == len(s.internal)
+//@ ensures r0 == len(s.internal) && 0 <= r0 && r0 <= 1099511627776
 // verif:func mqtt.InlineSubscriptions.Len
-//@ ensures r0 == len(s.internal)
+//@ ensures r0 == len(s.internal) && 0 <= r0 && r0 <= 1099511627776
 // verif:func mqtt.particles.len
-//@ ensures r0 == len(p.internal)
+//@ ensures r0 == len(p.internal) && 0 <= r0 && r0 <= 1099511627776
 // verif:func mqtt.particles.delete
 //@ modifies entries(p.internal)
 //@ ensures !has(p.internal, id) && (forall k string :: k != id ==> (has(p.internal, k) <==> old(has(p.internal, k))) && p.internal[k] == old(p.internal[k]))
@@ -771,7 +782,9 @@ package mqtt
 // index shape: a node registered in its parent is registered under its own key; every node has its three tables (newParticle)
 // verif:def wfTrie() bool = forall x *particle :: x != nil && x.parent != nil && has(x.parent.particles.internal, x.key) ==> x.parent.particles.internal[x.key] == x
 // verif:def nodesValid() bool = forall x *particle :: x != nil ==> x.subscriptions != nil && x.shared != nil && x.inlineSubscriptions != nil && x.particles.internal != nil
-// verif:func mqtt.TopicsIndex.trim modifies=all
+// verif:func mqtt.TopicsIndex.trim
+//@ modifies allentries("string", "*particle")
+//@ ensures index-shape-kept: wfTrie() && nodesValid()
 //@ requires n != nil && wfTrie() && nodesValid()
 //@ callsite mqtt.particles.delete C31-only-empty-nodes-are-pruned: has(n.particles.internal, key) ==> emptyNode(n.particles.internal[key])
 // verif:loop mqtt.TopicsIndex.trim 1
@@ -948,3 +961,38 @@ package mqtt
 //@ modifies x.Retained.ggot
 //@ ensures C02-a-filter-without-wildcards-returns-only-the-identical-topic: noWild(filter) ==> (forall t string :: x.Retained.ggot[t] == old(x.Retained.ggot[t]) + ((len(filter) > 0 && t == filter && has(x.Retained.internal, t)) ? 1 : 0))
 //@ ensures C02-exactly-the-matching-retained-messages-each-once: !noWild(filter) ==> (forall t string :: x.Retained.ggot[t] == old(x.Retained.ggot[t]) + ((len(filter) > 0 && retHit(x, t, nil, 0, filter)) ? 1 : 0))
+
+// ======================================================================================
+// Retained store (C05): latest retained publish per topic, retain handling, retain availability
+// ======================================================================================
+// verif:def rmap(x *TopicsIndex) map = x.Retained.internal
+// the index operations RetainMessage uses: they build / prune nodes and never touch the retained store
+// verif:func mqtt.TopicsIndex.set trusted
+//@ modifies allentries("string", "*particle")
+//@ ensures r0 != nil
+//@ ensures old(wfTrie() && nodesValid()) ==> wfTrie() && nodesValid()
+// verif:func mqtt.TopicsIndex.RetainMessage
+//@ requires x.Retained != nil && x.Retained.internal != nil && x.root != nil && wfTrie() && nodesValid()
+//@ modifies entries(x.Retained.internal), allentries("string", "*particle"), all(particle.retainPath), x.Retained.ggot
+//@ ensures C05-message-with-payload-replaces-the-retained-one: len(pk.Payload) > 0 ==> r0 == 1 && has(rmap(x), pk.TopicName) && rmap(x)[pk.TopicName] == pk
+//@ ensures C05-empty-payload-deletes-the-retained-message: len(pk.Payload) == 0 ==> !has(rmap(x), pk.TopicName) && (r0 == 0 || r0 == -1)
+//@ ensures C05-other-topics-untouched: forall t string :: t != pk.TopicName ==> (has(rmap(x), t) <==> old(has(rmap(x), t))) && rmap(x)[t] == old(rmap(x)[t])
+//@ ensures index-shape-kept: wfTrie() && nodesValid() && x.root == old(x.root) && x.Retained == old(x.Retained) && x.Retained.internal == old(x.Retained.internal)
+
+// every packet in the retained store is a PUBLISH with a QoS of at most 2 (only retainMessage / loadRetained put packets there)
+// verif:def okRetained(p Packet) bool = p.FixedHeader.Type == Publish && p.FixedHeader.Qos <= 2
+// verif:def retStoreInv(x *TopicsIndex) bool = forall t string :: has(rmap(x), t) ==> okRetained(rmap(x)[t])
+// verif:func mqtt.Hooks.OnRetainPublished trusted pure
+// retained messages for a new subscription: none for shared subscriptions, none for Retain Handling 2, none for Retain Handling 1
+// when the subscription already existed; otherwise every message Messages() returns for the filter, with the retain flag kept
+// verif:func mqtt.Server.publishRetainedToClient modifies=all
+//@ requires validClOut(cl) && validSrv(s) && s.Options.Capabilities.MaximumQos <= 2 && sub.Qos <= 2 && !has(ifl(cl), 0) && cl.Properties.ProtocolVersion <= 5 && s.Log != nil
+//@ requires s.Topics != nil && trieInv(s.Topics) && retInv(s.Topics) && retStoreInv(s.Topics)
+//@ requires len(sub.Filter) > 0 ==> nlevels(sub.Filter) >= 1 && nlevels(sub.Filter) <= 1099511627776 && hashLast(sub.Filter)
+//@ ensures C05-shared-subscriptions-get-no-retained-messages: sharedFilter(sub.Filter) ==> nothingQueued(cl) && tableUntouched(cl)
+//@ ensures C05-retain-handling-1-sends-only-for-a-new-subscription: sub.RetainHandling == 1 && existed ==> nothingQueued(cl) && tableUntouched(cl)
+//@ ensures C05-retain-handling-2-never-sends: sub.RetainHandling == 2 ==> nothingQueued(cl) && tableUntouched(cl)
+//@ callsite mqtt.TopicsIndex.Messages C05-the-retained-messages-matching-the-subscriptions-filter: arg1 == sub.Filter
+//@ callsite mqtt.Server.publishToClient C04-retained-deliveries-keep-their-retain-flag: arg2.FwdRetainedFlag && arg2.Filter == sub.Filter && arg2.Qos == sub.Qos
+// verif:loop mqtt.Server.publishRetainedToClient 1
+//@ invariant validClOut(cl) && validSrv(s) && s.Options.Capabilities.MaximumQos <= 2 && sub.Qos <= 2 && !has(ifl(cl), 0) && cl.Properties.ProtocolVersion <= 5 && s.Log != nil
